@@ -610,13 +610,16 @@ class Context:
                 return -1
             return x  # +0 or -0
 
+        def to_uint32(value):
+            """ToUint32: NaN and the infinities are 0, the rest wraps modulo 2^32."""
+            n = to_number(value)
+            return int(n) & 0xFFFFFFFF if math.isfinite(n) else 0
+
         def imul_fn(*args):
             # 32-bit integer multiplication
-            a = int(to_number(args[0])) if args else 0
-            b = int(to_number(args[1])) if len(args) > 1 else 0
+            a = to_uint32(args[0]) if args else 0
+            b = to_uint32(args[1]) if len(args) > 1 else 0
             # Convert to 32-bit signed integers
-            a = a & 0xFFFFFFFF
-            b = b & 0xFFFFFFFF
             if a >= 0x80000000:
                 a -= 0x100000000
             if b >= 0x80000000:
@@ -637,8 +640,7 @@ class Context:
 
         def clz32_fn(*args):
             # Count leading zeros in 32-bit integer
-            x = int(to_number(args[0])) if args else 0
-            x = x & 0xFFFFFFFF
+            x = to_uint32(args[0]) if args else 0
             if x == 0:
                 return 32
             count = 0
